@@ -98,3 +98,14 @@ def signed_area(poly):
         a, b = poly[i], poly[(i + 1) % n]
         s += a[0] * b[1] - b[0] * a[1]
     return s / 2
+
+
+def on_or_near(a, b, m):
+    """is the float point m plausibly the face point between exact corners a and b?  (the
+    neighbouring cell across a branch cut or a region edge is a different cell: its face
+    point is far from this cell's edge).  True if m is within one edge length of both ends."""
+    import math
+
+    ax, ay, bx, by = float(a[0]), float(a[1]), float(b[0]), float(b[1])
+    L = math.hypot(bx - ax, by - ay)
+    return math.hypot(m[0] - ax, m[1] - ay) <= 1.01 * L and math.hypot(m[0] - bx, m[1] - by) <= 1.01 * L
